@@ -514,7 +514,6 @@ Proof.
         destruct (Z.ltb_spec remain dx); lia.
 Qed.
 
-Definition block_of (size p : pt) : pt := (px p / px size, py p / py size, pz p / pz size).
 
 (* the run of a piece lies inside the block the piece is filed under *)
 Definition piece_in_block (size : pt) (q : bpiece) : Prop :=
